@@ -247,6 +247,8 @@ func (m *Machine) upperByte(b *Term) *Term {
 // atomics operate on cells
 func atomicCell(v value) *value {
 	switch p := v.(type) {
+	case *PtrSet:
+		panic(unsupported{"atomic operation through a symbolic pointer"})
 	case *value:
 		return p
 	case unsafePtr:
@@ -641,42 +643,48 @@ func init() {
 	}
 }
 
-func atomicLoad(m *Machine, fn *ssa.Function, a []value) value { return load(atomicCell(a[0])) }
+func atomicPtr(a value) value {
+	if up, ok := a.(unsafePtr); ok {
+		return up.v
+	}
+	return a
+}
+func atomicLoad(m *Machine, fn *ssa.Function, a []value) value { return m.loadFrom(atomicPtr(a[0])) }
 func atomicStore(m *Machine, fn *ssa.Function, a []value) value {
-	m.store(atomicCell(a[0]), a[1])
+	m.storePtr(atomicPtr(a[0]), a[1])
 	return nil
 }
 func atomicAdd(m *Machine, fn *ssa.Function, a []value) value {
-	c := atomicCell(a[0])
-	n := m.tt.Bin("bvadd", (*c).(*Term), a[1].(*Term))
-	m.store(c, n)
+	p := atomicPtr(a[0])
+	n := m.tt.Bin("bvadd", m.loadFrom(p).(*Term), a[1].(*Term))
+	m.storePtr(p, n)
 	return n
 }
 func atomicSwap(m *Machine, fn *ssa.Function, a []value) value {
-	c := atomicCell(a[0])
-	old := *c
-	m.store(c, a[1])
+	p := atomicPtr(a[0])
+	old := m.loadFrom(p)
+	m.storePtr(p, a[1])
 	return old
 }
 func atomicCAS(m *Machine, fn *ssa.Function, a []value) value {
-	c := atomicCell(a[0])
-	var eq *Term
-	switch cur := (*c).(type) {
+	p := atomicPtr(a[0])
+	cur := m.loadFrom(p)
+	switch c := cur.(type) {
 	case *Term:
-		eq = m.tt.Eq(cur, a[1].(*Term))
+		eq := m.tt.Eq(c, a[1].(*Term))
+		m.storePtr(p, m.tt.Ite(eq, a[2].(*Term), c))
+		return eq
 	case unsafePtr:
 		o := a[1].(unsafePtr)
-		cp, _ := cur.v.(*value)
+		cp, _ := c.v.(*value)
 		op, _ := o.v.(*value)
-		eq = m.tt.Bool(cp == op)
-	default:
-		panic(unsupported{"CAS on " + fmt.Sprintf("%T", cur)})
+		if cp == op {
+			m.storePtr(p, a[2])
+			return m.tt.True
+		}
+		return m.tt.False
 	}
-	if m.branch(eq) {
-		m.store(c, a[2])
-		return m.tt.True
-	}
-	return m.tt.False
+	panic(unsupported{"CAS on " + fmt.Sprintf("%T", cur)})
 }
 
 // sortSlice: insertion sort driven by the less closure (stable).
